@@ -392,6 +392,14 @@ Theorem c09_summary_ignores_frames_beyond_cut :
 Proof. exact summary_ignores_frames_beyond_cut. Qed.
 Print Assumptions c09_summary_ignores_frames_beyond_cut.
 
+(* the hypotheses of the four theorems above hold in every state the modelled operations reach from a fresh thread
+   (snapshot = the stream itself): message seqs are sorted and no checkpoint frame has to_seq 0 *)
+Theorem c09_summary_hypotheses_hold_when_reachable : forall (K : consts) (ops : list op),
+  msorted (log (fst (run_ops K st0 ops [])))
+  /\ Forall (fun c => ck_to c <> 0) (ckpts (log (fst (run_ops K st0 ops [])))).
+Proof. exact reachable_summary_hyps. Qed.
+Print Assumptions c09_summary_hypotheses_hold_when_reachable.
+
 (* non-vacuity: 7 messages, stride 2, max_new 2: the summary of the 4th message is built from scratch out of messages
    1..4, the summary of the 6th on top of it out of messages 5 and 6; a later message, a later checkpoint frame for the
    same cut and another frame appended to snapshot and stream leave the first summary's inputs unchanged *)
